@@ -274,6 +274,10 @@ def run(ctx, case):
         if st != "ok":
             raise RuntimeError("layout rejected by the public API: %s" % H.exc_sig(sysobj))
         ctx.count("history", "fresh")
+    if lay["seed"] % 2:
+        with H.quiet():
+            _rows.decoys(spec, lay["seed"])  # other muxes / regulators ... constructed meanwhile (class-level state)
+        ctx.count("history", "decoy components constructed before the solve")
     st, df = H.solve(sysobj)
     ctx.count("outcome", "returned" if st == "ok" else type(df).__name__)
     if st != "ok":
